@@ -83,6 +83,20 @@ def cwMatch (f : CwFlags) : List (List Nat) → Bool → Bool → List Nat → B
       (canIns && f.mayIns && (32 :: c).isPrefixOf out && cwMatch f cs false false (out.drop (c.length + 1))) ||
         ((!canIns || !f.mustIns) && c.isPrefixOf out && cwMatch f cs false false (out.drop c.length))
 
+/-- the clusters of an accepted output: like `cwMatch`, but returning the corrupted cluster list (the first
+admissible explanation) -/
+def cwWitness (f : CwFlags) : List (List Nat) → Bool → Bool → List Nat → Option (List (List Nat))
+  | [], _, _, out => if out.isEmpty then some [] else none
+  | c :: cs, first, prevWs, out =>
+    if isWsCl c then
+      (if f.mayDel then cwWitness f cs false true out else none).orElse (fun _ =>
+        if !f.mustDel && c.isPrefixOf out then (cwWitness f cs false true (out.drop c.length)).map (c :: ·) else none)
+    else
+      let canIns := !first && !prevWs
+      (if canIns && f.mayIns && (32 :: c).isPrefixOf out then
+          (cwWitness f cs false false (out.drop (c.length + 1))).map (fun r => sp :: c :: r) else none).orElse (fun _ =>
+        if (!canIns || !f.mustIns) && c.isPrefixOf out then (cwWitness f cs false false (out.drop c.length)).map (c :: ·) else none)
+
 def cwAllowed (iw dw : Nat) (s : List (List Nat)) (out : List Nat) : Bool :=
   cwMatch (CwFlags.ofPermille iw dw) s true false out
 
